@@ -196,6 +196,7 @@ def ex_file(ctx, fmt, n, seed, variant=0):
     tmp = tempfile.mkdtemp(prefix="c19-", dir=os.environ.get("VERIF_TMP", "/var/tmp"))
     path = os.path.join(tmp, "cat." + {"csep-csv": "csv", "zmap": "dat", "jma-csv": "csv", "ingv_horus": "txt", "ndk": "ndk"}[fmt])
     rc = {"exec": "file", "args": {"fmt": fmt, "n": n, "seed": seed, "variant": variant}}
+    ctx.current_case = rc
     tags = {"format": fmt, "single_record": n == 1, "variant": variant}
     try:
         if fmt == "csep-csv":
